@@ -379,9 +379,9 @@ pub fn run(ctx: &Ctx, rep: &mut Report) {
     rep.sub_set("small-word-strings", "max_words", json!(words));
     rep.sub_set("small-word-strings", "word_alphabet", json!("0 1 2 3 u32::MAX, followed by 0..3 payload bytes"));
     rep.sub_set("small-word-strings", "exhaustive", json!(true));
-    let cases = ctx.share(ctx.tier.pick(400_000, 16_000_000));
+    let cases = ctx.share(ctx.tier.pick(800_000, 16_000_000));
     engine::drive(ctx, rep, "shaped", shaped(), cases, check_case);
-    let cases = ctx.share(ctx.tier.pick(120_000, 8_000_000));
+    let cases = ctx.share(ctx.tier.pick(240_000, 8_000_000));
     engine::drive(ctx, rep, "raw", raw(), cases, check_case);
 }
 
